@@ -47,12 +47,12 @@ LEMMAS = {
     "lemma_H_INV": ("H-INV", ["C01", "C02", "C03", "C08", "C10"]),
     "lemma_cap_constant": ("H-CAP", ["C08"]),
     # glue U2 (proved) ==> U1 (assumed), contracts/glue_u1_u2.rs
-    "lemma_glue_poll": ("GLUE.poll", ["C16", "C04", "C15", "C01", "C08", "C10", "C11"]),
-    "lemma_glue_async_blocking_wait": ("GLUE.async_blocking_wait", ["C15", "C16", "C04", "C01", "C10", "C11"]),
-    "lemma_glue_wait_timeout": ("GLUE.wait_timeout", ["C13", "C04", "C01", "C08", "C10", "C11"]),
-    "lemma_glue_wait": ("GLUE.wait", ["C01", "C04", "C08", "C10", "C11", "C13"]),
-    "lemma_glue_is_terminated": ("GLUE.is_terminated", ["C13"]),
-    "lemma_glue_timeout_not_early": ("GLUE.timeout-not-early", ["C13"]),
+    "lemma_glue_poll": ("GLUE.poll", ["C16", "C04", "C15", "C01", "C08", "C10", "C11", "C03", "C18"]),
+    "lemma_glue_async_blocking_wait": ("GLUE.async_blocking_wait", ["C15", "C16", "C04", "C01", "C10", "C11", "C03", "C18"]),
+    "lemma_glue_wait_timeout": ("GLUE.wait_timeout", ["C13", "C04", "C01", "C08", "C10", "C11", "C03", "C18"]),
+    "lemma_glue_wait": ("GLUE.wait", ["C01", "C04", "C08", "C10", "C11", "C13", "C03", "C18"]),
+    "lemma_glue_is_terminated": ("GLUE.is_terminated", ["C13", "C03", "C18"]),
+    "lemma_glue_timeout_not_early": ("GLUE.timeout-not-early", ["C13", "C03", "C18"]),
 }
 GLUE_QUOTES = {"u2.kc": ["O-poll.final-only", "O-abw.final-only", "O-wait_timeout.success", "O-not-early", "O-is_terminated", "O-wait.final-only"],
                "prelude_u1.rs": ["pub fn poll(&self)", "pub fn async_blocking_wait(&self", "pub fn wait_timeout(&self", "pub fn is_terminated(&self"]}
@@ -618,7 +618,9 @@ def run_property(here, repo, prop, cfg, tier, seed, tmp, t0):
                     break
             if not ok:
                 bad.append(o)
-        if bad:
+        # the guard protects a *success* against vacuity; when obligations fail anyway the failures are what is reported
+        # (a change that makes an exit unreachable usually fails the function's result obligation as well)
+        if bad and not failed and not extra_failed:
             raise Undecided("vacuity guard: assert(false) at an exit was PROVED (contradictory pre-conditions or unreachable exit) in: %s" % sorted(set(o["func"] + " @ " + o.get("exit_text", "") for o in bad)))
     if not all_obs and not extra_obs:
         raise Undecided("no obligation is tagged with %s (zero obligations = vacuous)" % prop)
